@@ -1,6 +1,6 @@
 // Opaque surface of the io_uring write path (unit uring_batch; C20: a buffer the kernel may still be reading from is
 // leaked, never freed; C09: an indeterminate submission poisons the handle and marks the file before the error is
-// returned). TRUSTED (A37): the kernel side of io_uring is a ghost predicate `holds(ud)` - "a submission with this
+// returned). TRUSTED (A38): the kernel side of io_uring is a ghost predicate `holds(ud)` - "a submission with this
 // user_data was queued and no completion for it has been consumed yet" -: a successful `sq.push` adds the entry's
 // user_data, consuming a completion entry removes its user_data, nothing else changes it; a completion's result is
 // the byte count or -errno (never i32::MIN); the completion queue is finite. A buffer is an abstract identity with a
@@ -216,6 +216,18 @@ pub fn forget_slot<T>(buffers: &mut Vec<Option<T>>, index: usize)
         final(buffers)@.len() == old(buffers)@.len(),
         final(buffers)@[index as int] is None,
         forall|j: int| 0 <= j < old(buffers)@.len() && j != index ==> final(buffers)@[j] == old(buffers)@[j],
+{
+    unimplemented!()
+}
+pub fn min_usize(a: usize, b: usize) -> (r: usize)
+    ensures r == (if a <= b { a } else { b }),
+{
+    if a <= b { a } else { b }
+}
+// drop(self.ring.take())   (rule R-take)
+#[verifier::external_body]
+pub fn drop_ring(ring: &mut Option<IoUring>)
+    ensures *final(ring) is None,
 {
     unimplemented!()
 }
